@@ -93,6 +93,7 @@ func (fx *fnExec) dynCallHooks(name string, args []Val, st *State, pos token.Pos
 			continue
 		}
 		fx.callCount[fmt.Sprintf("assert:%d:%s", i, a.Callee)]++
+		noteAssertFired(fx.c, i)
 		if a.Nth != 0 && a.Nth != fx.callCount[fmt.Sprintf("assert:%d:%s", i, a.Callee)] {
 			continue
 		}
